@@ -44,8 +44,11 @@ pub fn resolve_res(
     let prev_value = res.reserve_size;
     
     res.reserve_size =
-        <u32 as TryInto<usize>>::try_into(value).unwrap() *
-        bank.addr_unit;
+        <u32 as TryInto<usize>>::try_into(value).unwrap()
+            .checked_mul(bank.addr_unit)
+            .ok_or_else(|| report.error_span(
+                "value is out of supported range",
+                ast_res.expr.span()))?;
 
 
     if res.reserve_size != prev_value
